@@ -87,7 +87,9 @@ impl<K: TestKey> Gen<K> {
     }
 
     pub fn chunks(rng: &mut Rng, len: usize) -> Vec<usize> {
-        match rng.below(7) {
+        match rng.below(9) {
+            7 => vec![rng.range(1, 40) as usize],       // small header, then the rest in one write
+            8 => vec![len / 3, 1, 0, 2],                // big, tiny, empty, tiny, then the rest
             0 => vec![],                       // one write of everything
             1 => vec![0, len, 0],              // empty chunks around
             2 if len <= 64 => vec![1; len],    // byte by byte
